@@ -98,6 +98,37 @@ var rawSets = [][]string{
 	23: {"Public, Max-Age=3000"},
 }
 
+// lineIDs: every distinct Cache-Control line text of rawSets gets a number; the Coq model knows a line
+// only by that number, and a comma-joined text by the sequence of the numbers of its lines.
+var lineIDs = func() map[string]int {
+	m := map[string]int{}
+	for _, set := range rawSets {
+		for _, l := range set {
+			if _, ok := m[l]; !ok {
+				m[l] = len(m) + 1
+			}
+		}
+	}
+	return m
+}()
+
+// coqLines renders the header lines of a raw set as a list of singleton texts, coqText the joined text.
+func (p Policy) coqLines() string {
+	var parts []string
+	for _, l := range p.rawLines() {
+		parts = append(parts, fmt.Sprintf("[%d]", lineIDs[l]))
+	}
+	return "[" + strings.Join(parts, ";") + "]"
+}
+
+func (p Policy) coqText() string {
+	var parts []string
+	for _, l := range p.rawLines() {
+		parts = append(parts, fmt.Sprint(lineIDs[l]))
+	}
+	return "[" + strings.Join(parts, ";") + "]"
+}
+
 func (p Policy) rawLines() []string {
 	if p.K == pRaw && p.N >= 0 && int(p.N) < len(rawSets) {
 		return rawSets[p.N]
@@ -1261,6 +1292,8 @@ func (g *gen) coqHistory(f *coqgen.File, id int, r *result) string {
 			}
 			if op.Alt != "" {
 				ops = append(ops, fmt.Sprintf("RServeAlt %s %d %s %d %d %s %s %s", f.Str(op.U), op.Code, coqgen.Bool(op.JSON), op.V, p.K, sint(p.N), f.Str(op.Alt), coqgen.Bool(jsonMediaType(op.contentType()))))
+			} else if p.K == pRaw {
+				ops = append(ops, fmt.Sprintf("RServeRaw %s %d %s %d %s", f.Str(op.U), op.Code, coqgen.Bool(op.JSON), op.V, p.coqLines()))
 			} else {
 				ops = append(ops, fmt.Sprintf("RServe %s %d %s %d %d %s", f.Str(op.U), op.Code, coqgen.Bool(op.JSON), op.V, p.K, sint(p.N)))
 			}
@@ -1344,7 +1377,12 @@ func (g *gen) writeShards(rows []ccRow) error {
 		var tab, hs, es []string
 		for _, r := range rows {
 			amb := r.spec.ambiguous
-			tab = append(tab, fmt.Sprintf("CCE %d %s %s %s %s %s %s %s %s", r.p.K, sint(r.p.N), coqgen.Bool(r.store), coqgen.Bool(r.has), sint(r.life), coqgen.Bool(r.nocache),
+			key := fmt.Sprintf("CCE %d %s", r.p.K, sint(r.p.N))
+			if r.p.K == pRaw {
+				// the row of the ONE line the library sees: the comma-joined text of the set's lines
+				key = "CCT " + r.p.coqText()
+			}
+			tab = append(tab, fmt.Sprintf("%s %s %s %s %s %s %s %s", key, coqgen.Bool(r.store), coqgen.Bool(r.has), sint(r.life), coqgen.Bool(r.nocache),
 				coqgen.Bool(r.spec.forbid && !amb), coqgen.Bool(r.spec.revalidate && !amb), coqgen.Bool(r.spec.nofresh && !amb)))
 		}
 		for i := lo; i < hi; i++ {
@@ -1691,6 +1729,9 @@ func (g *gen) genLinkObs() Input {
 	serve := func(k string) {
 		version++
 		op := Op{T: "serve", U: k, Code: 200, JSON: true, V: version, P: g.genPolicy()}
+		for op.P.K == pRaw { // the case-file op for alternate links carries a named header set
+			op.P = g.genPolicy()
+		}
 		if r.Intn(100) < 45 && !strings.HasPrefix(k, "ipfs://") {
 			op.Alt = urls[r.Intn(len(urls))] // may be k itself, may be an unsupported scheme
 			op.JSON = r.Intn(3) == 0
